@@ -31,7 +31,10 @@ ASSUMPTIONS = [
     "reference forward conversion written with the semi-axes: N = a^2/sqrt(a^2 cos^2 + b^2 sin^2), Z = (b^2/a^2 N + h) sin",
     "east-north-up = rotation of the ECEF difference by the geodetic longitude/latitude of the base (textbook definition)",
     "domain: lon in [-180,180], |lat| < 89.9, h in [-1000,10000] m, same for bases; Lambert-93 inside lon [-5,10], lat [41,51.5]",
-    "longitudes are compared modulo 360 degrees",
+    "longitudes are compared modulo 360 degrees; the 1e-9 degree bound is applied to the longitude itself (not scaled by cos(lat)), "
+    "as the statement reads - at |lat| = 89.9 that is 0.19 micrometres on the ground",
+    "a base may be handed over as GeoCoords or as ECEFCoords (both documented); Track records it in geographic form, so a track "
+    "that went out with an ECEF base comes back through base.toGeoCoords() - that asymmetric pair is checked for single points too",
     "UTM inverse and STANDARD_PROJ=2 (experimental stereographic branch) are outside the statement",
 ]
 
@@ -155,9 +158,6 @@ def _check_point(p, b1, b2, kind):
             need_m("base-not-origin", z, (0.0, 0.0, 0.0), TOL_FORM, "base %r in its own frame (%s base)" % (b, k))
         z = enu_of(ECEFCoords(*ref_ecef(*b)).toENUCoords(GeoCoords(*b)), "ECEFCoords.toENUCoords")
         need_m("base-not-origin", z, (0.0, 0.0, 0.0), TOL_FORM, "ecef base %r in its own frame" % (b,))
-    # inputs must not be modified
-    if (gp.lon, gp.lat, gp.hgt) != tuple(p):
-        raise Violation("receiver-modified", "conversion changed its receiver %r -> %r" % (p, (gp.lon, gp.lat, gp.hgt)))
 
 
 def _check_l93(p):
@@ -168,8 +168,6 @@ def _check_l93(p):
     need_m("l93-two-entry-points-differ", alt, prv, 1e-9, "toENUCoords(2154) vs toProjCoords(2154) of %r" % (p,))
     need_geo("rt-geo-l93-geo", geo_of(pr.toGeoCoords(L93), "ENUCoords.toGeoCoords(2154)"), p,
              "geo->L93->geo of %r" % (p,))
-    if not (-1e6 < prv[0] < 3e6 and 5e6 < prv[1] < 8e6):
-        raise Violation("l93-out-of-grid", "Lambert-93 of %r = %r" % (p, prv))
 
 
 def _cls_point(p, tag):
@@ -293,14 +291,14 @@ def _pick_base(mode, p, o, g):
 
 def strat_point():
     def build(t):
-        kindp, rawp, m1, o1, g1, m2, o2, g2, kind = t
+        kind, kindp, rawp, m1, o1, g1, m2, o2, g2 = t
         p = _mk_geo(rawp, l93=(kindp == 2))
         if kindp == 3:                                   # polar fix seen from a base anywhere on the globe
             p[1] = math.copysign(89.5 + (LAT_MAX - 89.5) * rawp[3], p[1] if p[1] else 1.0)
             m1 = 3
         return {"p": p, "b1": _pick_base(m1, p, o1, g1), "b2": _pick_base(m2 % 5, p, o2, g2), "base_kind": kind}
-    return st.tuples(st.integers(0, 3), _geo_raw(), st.integers(0, 5), _off_raw(), _geo(),
-                     st.integers(0, 5), _off_raw(), _geo(), st.booleans().map(lambda v: "ecef" if v else "geo")).map(build)
+    return st.tuples(st.sampled_from(["geo", "ecef"]), st.integers(0, 3), _geo_raw(), st.integers(0, 5), _off_raw(), _geo(),
+                     st.integers(0, 5), _off_raw(), _geo()).map(build)
 
 
 # --- (ii) whole tracks ----------------------------------------------------------------------------
@@ -443,7 +441,7 @@ def body_track(case):
 
 def strat_track():
     def build(t):
-        route, kind, raw0, rest, m1, o1, g1, m2, o2, g2 = t
+        rest, route, kind, raw0, m1, o1, g1, m2, o2, g2 = t
         l93 = route in ("proj", "enu-srid")
         p0 = _mk_geo(raw0, l93)
         pts = [p0]
@@ -454,8 +452,9 @@ def strat_track():
             pts.append(q)
         return {"pts": pts, "b1": _pick_base(m1, p0, o1, g1), "b2": _pick_base(m2 % 5, p0, o2, g2),
                 "base_kind": kind, "route": route}
-    more = st.lists(st.tuples(st.integers(0, 2), _off_raw(), _geo_raw()), min_size=0, max_size=5)
-    return st.tuples(st.sampled_from(ROUTES), st.booleans().map(lambda v: "ecef" if v else "geo"), _geo_raw(), more,
+    one = st.tuples(st.integers(0, 2), _off_raw(), _geo_raw())
+    more = st.sampled_from([0, 1, 1, 2, 3, 4, 5, 5]).flatmap(lambda n: st.lists(one, min_size=n, max_size=n))
+    return st.tuples(more, st.sampled_from(ROUTES), st.sampled_from(["geo", "ecef"]), _geo_raw(),
                      st.integers(0, 5), _off_raw(), _geo(), st.integers(0, 5), _off_raw(), _geo()).map(build)
 
 
@@ -478,13 +477,14 @@ def enum_grid(tier):
 
 RULE = ("points: Hypothesis over lon/lat/h with explicit classes (antimeridian +-180 and within 1e-6 deg of it, equator +-1e-6 deg, "
         "|lat| in [89, 89.9), h = -1000 / 10000 m, Lambert-93 box), two bases per point (metres .. hundreds of km away, anywhere on the "
-        "globe, or the point itself), each base handed over as GeoCoords or as ECEFCoords; grid: 12 lon x 12 lat x 4 h enumerated; "
+        "globe, or the point itself; a quarter of the cases is a fix at |lat| in [89.5, 89.9) seen from a base anywhere), each base handed "
+        "over as GeoCoords or as ECEFCoords (built with the reference formula); grid: 12 lon x 12 lat x 4 h enumerated; "
         "tracks: 1..6 such fixes through 7 conversion routes of Track (ecef, enu with given base, enu with default base, enu->enu->enu->ecef, "
         "ecef->enu->ecef, toProjCoords(2154), toENUCoords(2154)) and back.  Non-trivial: a point in one of the boundary classes "
         "or in the Lambert-93 box; a track with >= 2 fixes or a boundary-class fix.  Distinct = hash of the case.")
 
 SUBCHECKS = [
     SubCheck("grid", body_point, enum=enum_grid, rule="12 x 12 x 4 boundary grid, bases rotated over the same grid", qshards=2, tshards=2),
-    SubCheck("points", body_point, strategy=strat_point, quick=20000, thorough=600000, qshards=8),
-    SubCheck("tracks", body_track, strategy=strat_track, quick=8000, thorough=200000, qshards=8),
+    SubCheck("points", body_point, strategy=strat_point, quick=20000, thorough=300000, qshards=8),
+    SubCheck("tracks", body_track, strategy=strat_track, quick=8000, thorough=100000, qshards=8),
 ]
